@@ -27,15 +27,21 @@ def translate(ctx):
             if isinstance(n, ast.Assign) and len(n.targets) == 1:
                 t = ast.unparse(n.targets[0])
                 if t == 'self.line_padding_px':
-                    consts['pad'] = ast.literal_eval(n.value)
-                if t == 'self.max_input_horizontal_pixels':
-                    consts['budget'] = ast.unparse(n.value).replace(' ', '')
+                    try:
+                        consts['pad'] = ast.literal_eval(n.value)
+                    except ValueError:
+                        pass            # a named constant: read from the live engine below
+                if t == 'self.max_input_horizontal_pixels' and ast.unparse(n.value).replace(' ', '') == '480*batch_size':
+                    consts['budget'] = '480*batch_size'
                 if t == 'line_logits[line_probs < 0.0001]':
                     consts['sparse_threshold'] = 0.0001
         src2 = open(os.path.join(common.REPO, 'pero_ocr/ocr_engine/pytorch_ocr_engine.py')).read()
         for n in ast.walk(ast.parse(src2)):
             if isinstance(n, ast.Assign) and ast.unparse(n.targets[0]) == 'self.net_subsampling':
-                consts['sub'] = ast.literal_eval(n.value)
+                try:
+                    consts['sub'] = ast.literal_eval(n.value)
+                except ValueError:
+                    pass
         if set(consts) != {'pad', 'budget', 'sparse_threshold', 'sub'}:
             # the same constants read from a live engine (robust to restructuring); the sparse threshold is judged by the oracle
             import tempfile, shutil
